@@ -180,6 +180,15 @@ LoopVals == {IntL(1), StrL("s"), BoolL(TRUE), FloatL(3, 1), NilL, ArrL(<<IntL(1)
 LoopData == CondData \o <<[n |-> "ob", v |-> O(<<[pk |-> "index", pv |-> I(7)]>>)]>>
 LoopDataVals == {I(1), S("s"), B(TRUE), F(3, 1), Nil, A(<<I(1)>>), O(<<>>), O(<<[pk |-> "index", pv |-> I(7)]>>)}
 For2(body) == For(Assign("i", IntL(0), 1), Bin("<", Var("i"), IntL(2)), Post("++", Var("i")), body, NoElse, 1)
+\* a @for has no loop object of its own: inside a @for nested in an @each, 'loop' is the @each's; in a @for that no @each
+\* surrounds, 'loop' is an unknown name
+LoopShow == <<P(LoopF("index")), P(LoopF("iter")), P(Tern(LoopF("first"), StrL("F"), StrL("-"))), P(Tern(LoopF("last"), StrL("L"), StrL("-")))>>
+LoopInFor == {<<Each("v", Var("ar"), <<H("("), P(V), For2(<<H("[")>> \o LoopShow \o <<P(Var("i")), H("]")>>), P(LoopF("iter")), H(")")>>, NoElse, 1)>>,
+              <<Each("v", Var("ar"), <<For2(<<If(<<Br(LoopF("last"), <<H("L"), P(Var("i"))>>)>>, <<H("n")>>, 1)>>)>>, NoElse, 1)>>,
+              <<Each("v", Var("ar"), <<For2(<<Each("w", ArrL(<<IntL(7)>>), LoopShow, NoElse, 1), H("/")>> \o LoopShow \o <<H(";")>>)>>, NoElse, 1)>>,
+              <<H("a"), For2(<<P(LoopF("index"))>>), H("z")>>,
+              <<For2(<<P(Var("i")), If(<<Br(Bin("==", Var("i"), IntL(1)), <<P(LoopF("iter"))>>)>>, NoElse, 1)>>)>>,
+              <<For2(<<For2(<<P(Tern(LoopF("first"), IntL(1), IntL(2)))>>)>>)>>}
 LoopCtx(st) == {<<st, H("z")>>,
                 <<H("a"), If(<<Br(IntL(1), <<st>>)>>, NoElse, 1)>>,
                 <<Each("v", Var("ar"), <<st, P(LoopF("index"))>>, NoElse, 1)>>,
@@ -268,7 +277,7 @@ Cases ==
     [] Family = "c02truth" -> {[p |-> p, d |-> CondData, tags |-> <<"c02truth">>] : p \in UNION {TruthProbe(c) : c \in CondsAll}}
     [] Family = "c03each" -> {[p |-> p, d |-> CondData, tags |-> <<"c03each">>] : p \in EachLoops \cup NonArrays}
     [] Family = "c03for" -> {[p |-> p, d |-> CondData, tags |-> <<"c03for">>] : p \in ForLoops}
-    [] Family = "c03nested" -> {[p |-> p, d |-> CondData, tags |-> <<"c03nested">>] : p \in Nested \cup Nested3}
+    [] Family = "c03nested" -> {[p |-> p, d |-> CondData, tags |-> <<"c03nested">>] : p \in Nested \cup Nested3 \cup LoopInFor}
     [] Family = "c04scopes" -> {[p |-> c.p, d |-> c.d, tags |-> <<"c04scopes">>] : c \in ScopeProgs}
     [] Family = "c04scopesall" -> {[p |-> c.p, d |-> c.d, tags |-> <<"c04scopes">>] : c \in ScopeProgsAll}
     [] Family = "c04loop" -> {[p |-> c.p, d |-> c.d, tags |-> <<"c04loop">>] : c \in LoopProgs}
